@@ -22,7 +22,10 @@ Families
                 transaction cost, compute_pl / compute_portfolio / compute_loss (scripted simulate)
                 must equal pl() of the position HELD over the last step (no cost at maturity).
                 Models that return a view of their input (Identity, a slicing module) on
-                single-feature input lists are included.
+                single-feature input lists are included.  Applicability of feature / model x derivative
+                is decided dynamically (whatever evaluates is in scope).
+  hedge_reuse   ONE Hedger object on trees A, B, A, A of the same shape: the same oracles on every call
+                and equality with a fresh hedger (no dependence on a previous evaluation).
 """
 from __future__ import annotations
 
